@@ -243,6 +243,24 @@ func (r *regTerm) heartbeat(phone, what string) (answered bool) {
 	return r.nreplies() > before
 }
 
+// fragmented sends one 0x0200 as two sub-packaged frames (two writes) and waits for the answer to the
+// completed message or for the server closing the socket.  With the default FilterSubcontract the first
+// fragment alone is handled silently (no execution event, no reply) - but it IS the connection's first
+// handled message: the join, and its announcement, happen on it.
+func (r *regTerm) fragmented(phone, what string) (answered bool) {
+	before := r.nreplies()
+	body := make([]byte, 56)
+	copy(body[22:], []byte{0x24, 0x10, 0x01, 0x12, 0x30, 0x45})
+	copy(body[50:], []byte{0x24, 0x10, 0x01, 0x12, 0x30, 0x46})
+	ser := r.t.NextSerial()
+	r.t.NextSerial()
+	for _, fr := range ConcFragFrames(0x0200, phone, ser, body, 2) {
+		r.t.SendRaw(fr)
+	}
+	r.waitFor(what, func() bool { return r.replies > before || r.eof })
+	return r.nreplies() > before
+}
+
 // recvBy: the connection that received the command with this tag (-1 none, -2 several).
 func recvBy(conns []*regTerm, tag int) int {
 	got := -1
@@ -389,7 +407,7 @@ func (q *seqRun) exec(tok string) []string {
 		r, _, _ := dial(q.s, nostamp)
 		q.conns = append(q.conns, r)
 		return nil
-	case "f", "b", "m":
+	case "f", "ff", "b", "m":
 		c := num(1)
 		if c >= len(q.conns) || q.conns[c].closed || q.conns[c].isEOF() {
 			return nil
@@ -397,10 +415,14 @@ func (q *seqRun) exec(tok string) []string {
 		r := q.conns[c]
 		if r.joined { // any later message, with whatever phone: no manager operation, the connection stays up
 			phone := r.phone
-			if p[0] == "f" {
+			if p[0] == "f" || p[0] == "ff" {
 				phone = phoneOfKey(num(2))
 			}
-			if !r.heartbeat(phone, fmt.Sprintf("joined connection %d: heartbeat neither answered nor closed", c)) {
+			send := r.heartbeat
+			if p[0] == "ff" {
+				send = r.fragmented
+			}
+			if !send(phone, fmt.Sprintf("joined connection %d: message neither answered nor closed", c)) {
 				q.note("joined connection %d no longer answers heartbeats (closed by the server)", c)
 			}
 			return nil
@@ -409,13 +431,17 @@ func (q *seqRun) exec(tok string) []string {
 			return nil
 		}
 		phone := "99" + strconv.Itoa(c)
-		if p[0] == "f" {
+		if p[0] == "f" || p[0] == "ff" {
 			phone = phoneOfKey(num(2))
 		}
 		r.setPhone(phone)
-		answered := r.heartbeat(phone, fmt.Sprintf("first message of connection %d neither answered nor refused", c))
+		first := r.heartbeat
+		if p[0] == "ff" {
+			first = r.fragmented
+		}
+		answered := first(phone, fmt.Sprintf("first message of connection %d neither answered nor refused", c))
 		o := take(q.s, r, c, false)
-		if p[0] == "f" {
+		if p[0] == "f" || p[0] == "ff" {
 			key, _ := keyOf(phone)
 			switch {
 			case strings.HasPrefix(o, "j:") && strings.HasSuffix(o, ":0"):
@@ -606,7 +632,7 @@ func runSeq(toks []string) (res opResult) {
 		empty := false
 		for _, t := range toks {
 			obs = append(obs, q.exec(t)...)
-			if strings.HasPrefix(t, "f:") && strings.HasSuffix(t, ":0") {
+			if (strings.HasPrefix(t, "f:") || strings.HasPrefix(t, "ff:")) && strings.HasSuffix(t, ":0") {
 				empty = true
 			}
 		}
@@ -646,7 +672,11 @@ func runAdapt(seed int64, steps, nk int, emptyKey bool) (res opResult) {
 				do("c")
 			case x < 50:
 				cn := rng.Intn(nc)
-				o := do(fmt.Sprintf("f:%d:%d", cn, key))
+				ftok := "f"
+				if rng.Intn(4) == 0 {
+					ftok = "ff" // the first handled message is a sub-package fragment
+				}
+				o := do(fmt.Sprintf("%s:%d:%d", ftok, cn, key))
 				if len(o) == 1 && strings.HasSuffix(o[0], ":1") {
 					do(fmt.Sprintf("s:%d", cn))
 				}
@@ -689,6 +719,10 @@ type window struct {
 func runConc(seed int64, nconn, nkeys, ncallers int) (res opResult) {
 	s := server()
 	rng := rand.New(rand.NewSource(seed))
+	klo := 1 // one scenario in six also uses key 0 = the empty string (a KeyFunc may yield it)
+	if rng.Intn(6) == 0 {
+		klo = 0
+	}
 	var mu sync.Mutex
 	var hist []hop
 	var notes []string
@@ -731,6 +765,7 @@ func runConc(seed int64, nconn, nkeys, ncallers int) (res opResult) {
 		key             int
 		d1, d2          time.Duration
 		bad, join, more bool
+		frag            bool
 		stop            string
 		again           bool
 	}
@@ -738,7 +773,7 @@ func runConc(seed int64, nconn, nkeys, ncallers int) (res opResult) {
 	mkplan := func(key int) plan {
 		return plan{key: key, d1: time.Duration(rng.Intn(1200)) * time.Microsecond,
 			d2: time.Duration(rng.Intn(2000)) * time.Microsecond, bad: rng.Intn(6) == 0, join: rng.Intn(8) != 0,
-			more: rng.Intn(2) == 0, stop: stops[rng.Intn(len(stops))], again: rng.Intn(3) == 0}
+			more: rng.Intn(2) == 0, frag: rng.Intn(4) == 0, stop: stops[rng.Intn(len(stops))], again: rng.Intn(3) == 0}
 	}
 	type job struct {
 		c int
@@ -750,7 +785,7 @@ func runConc(seed int64, nconn, nkeys, ncallers int) (res opResult) {
 	guarded(func() {
 		for i := 0; i < nconn; i++ {
 			c, r, w := connect()
-			jobs = append(jobs, job{c, r, w, mkplan(1 + rng.Intn(nkeys))})
+			jobs = append(jobs, job{c, r, w, mkplan(klo + rng.Intn(nkeys-klo+1))})
 		}
 	})
 	// second lives are planned up front so that the plan does not depend on the schedule
@@ -765,7 +800,7 @@ func runConc(seed int64, nconn, nkeys, ncallers int) (res opResult) {
 	}
 	cplans := make([]cplan, ncallers)
 	for i := range cplans {
-		cplans[i] = cplan{key: 1 + rng.Intn(nkeys), d: time.Duration(rng.Intn(4000)) * time.Microsecond}
+		cplans[i] = cplan{key: klo + rng.Intn(nkeys-klo+1), d: time.Duration(rng.Intn(4000)) * time.Microsecond}
 	}
 	life := func(c int, r *regTerm, w *window, p plan) {
 		time.Sleep(p.d1)
@@ -781,12 +816,17 @@ func runConc(seed int64, nconn, nkeys, ncallers int) (res opResult) {
 			a := now()
 			phone := phoneOfKey(p.key)
 			r.setPhone(phone)
-			answered := r.heartbeat(phone, fmt.Sprintf("first message of connection %d neither answered nor refused", c))
+			first, ftok := r.heartbeat, "f"
+			if p.frag {
+				first, ftok = r.fragmented, "ff"
+			}
+			answered := first(phone, fmt.Sprintf("first message of connection %d neither answered nor refused", c))
 			o := take(s, r, c, false)
 			b := now()
-			add(hop{tok: fmt.Sprintf("f:%d:%d", c, p.key), inv: a, resp: b, obs: o})
+			add(hop{tok: fmt.Sprintf("%s:%d:%d", ftok, c, p.key), inv: a, resp: b, obs: o})
 			mu.Lock()
-			w.key, w.fInv, w.fResp = phone, a, b
+			w.key, _ = keyOf(phone)
+			w.fInv, w.fResp = a, b
 			switch {
 			case strings.HasPrefix(o, "j:") && strings.HasSuffix(o, ":0"):
 				w.ok = true
@@ -796,7 +836,7 @@ func runConc(seed int64, nconn, nkeys, ncallers int) (res opResult) {
 			}
 			mu.Unlock()
 			if w.ok && !answered {
-				note("connection %d joined key %s but the server closed it", c, phone)
+				note("connection %d joined key %q but the server closed it", c, phone)
 			}
 		}
 		if p.more && r.joined && !r.isEOF() {
@@ -835,6 +875,7 @@ func runConc(seed int64, nconn, nkeys, ncallers int) (res opResult) {
 	}
 	type sendRec struct {
 		key       string
+		knum      int
 		inv, resp int64
 		kind      string
 		dur       time.Duration
@@ -848,10 +889,10 @@ func runConc(seed int64, nconn, nkeys, ncallers int) (res opResult) {
 			guarded(func() {
 				p := cplans[i]
 				time.Sleep(p.d)
-				key := phoneOfKey(p.key)
+				key, _ := keyOf(phoneOfKey(p.key))
 				a := now()
 				r := call(s, key, i)
-				sends[i] = sendRec{key: key, inv: a, resp: now(), kind: r.kind, dur: r.dur, done: true}
+				sends[i] = sendRec{key: key, knum: p.key, inv: a, resp: now(), kind: r.kind, dur: r.dur, done: true}
 			})
 		}(i)
 	}
@@ -866,24 +907,36 @@ func runConc(seed int64, nconn, nkeys, ncallers int) (res opResult) {
 			obs := ""
 			switch {
 			case got == -2:
-				note("command of caller %d for key %s was written to more than one connection", i, sr.key)
+				note("command of caller %d for key %q was written to more than one connection", i, sr.key)
 				obs = "?several"
 			case got >= 0:
 				obs = fmt.Sprintf("r:*:%d", got)
 				w := wins[got]
 				if !w.ok || w.key != sr.key {
-					note("command for key %s was written to connection %d which never joined with it", sr.key, got)
+					note("command for key %q was written to connection %d which never joined with it", sr.key, got)
 				} else if sr.inv > w.sResp || sr.resp < w.fInv {
-					note("command for key %s [%d,%d] written to connection %d outside its life [%d,%d]", sr.key, sr.inv, sr.resp, got, w.fInv, w.sResp)
+					note("command for key %q [%d,%d] written to connection %d outside its life [%d,%d]", sr.key, sr.inv, sr.resp, got, w.fInv, w.sResp)
 				}
 			case sr.kind == "noexist": // the manager found no session
 				obs = "n:*"
 				for c, w := range wins {
 					if w.ok && w.done && w.key == sr.key && w.fResp < sr.inv && sr.resp < w.sInv {
-						note("key %s was held by connection %d during the whole call [%d,%d] but it returned ErrNotExistKey", sr.key, c, sr.inv, sr.resp)
+						note("key %q was held by connection %d during the whole call [%d,%d] but it returned ErrNotExistKey", sr.key, c, sr.inv, sr.resp)
 					}
 				}
-				nxRecord(sr.dur) // measured only: under concurrency a slow answer cannot be told from a busy machine
+				nxRecord(sr.dur)
+				// "at once": an answer that waited for the command's timer would take cmdTimeout (20 s); half of
+				// that is unambiguous.  One slow answer is slowness: the call is repeated now (everything of this
+				// scenario has ended, the key is not online) and only two slow answers are reported.
+				if sr.dur >= cmdTimeout/2 {
+					again := call(s, sr.key, 50000+i)
+					if again.kind == "noexist" {
+						nxRecord(again.dur)
+						if again.dur >= cmdTimeout/2 {
+							note("ErrNotExistKey for key %q only after %v, and after %v when asked again (a command's own timeout is %v)", sr.key, sr.dur, again.dur, cmdTimeout)
+						}
+					}
+				}
 			case sr.kind == "stopped" || sr.kind == "wfail" || sr.kind == "timeout":
 				// handed to a connection that ended before its terminal read the command
 				obs = "r:*:*"
@@ -894,20 +947,20 @@ func runConc(seed int64, nconn, nkeys, ncallers int) (res opResult) {
 					}
 				}
 				if !possible {
-					note("call for key %s returned %s although no connection held the key at any time during the call", sr.key, sr.kind)
+					note("call for key %q returned %s although no connection held the key at any time during the call", sr.key, sr.kind)
 				}
 			default:
-				note("caller for key %s got %s and no connection received the command", sr.key, sr.kind)
+				note("caller for key %q got %s and no connection received the command", sr.key, sr.kind)
 				obs = "?" + sr.kind
 			}
-			add(hop{tok: fmt.Sprintf("w:%s", keyNum(sr.key)), inv: sr.inv, resp: sr.resp, obs: obs})
+			add(hop{tok: fmt.Sprintf("w:%d", sr.knum), inv: sr.inv, resp: sr.resp, obs: obs})
 		}
 		// two connections certainly holding the same key at the same time
 		for a := 0; a < len(wins); a++ {
 			for b := a + 1; b < len(wins); b++ {
 				wa, wb := wins[a], wins[b]
 				if wa.ok && wb.ok && wa.done && wb.done && wa.key == wb.key && wa.fResp < wb.sInv && wb.fResp < wa.sInv {
-					note("connections %d and %d both held key %s during [%d,%d]", a, b, wa.key, max64(wa.fResp, wb.fResp), min64(wa.sInv, wb.sInv))
+					note("connections %d and %d both held key %q during [%d,%d]", a, b, wa.key, max64(wa.fResp, wb.fResp), min64(wa.sInv, wb.sInv))
 				}
 			}
 		}
@@ -926,7 +979,7 @@ func runConc(seed int64, nconn, nkeys, ncallers int) (res opResult) {
 				}
 			}
 			if !possible {
-				note("connection %d refused for key %s although no connection could hold it during [%d,%d]", c, w.key, w.fInv, w.fResp)
+				note("connection %d refused for key %q although no connection could hold it during [%d,%d]", c, w.key, w.fInv, w.fResp)
 			}
 		}
 		for c, r := range conns {
@@ -1161,9 +1214,6 @@ func (p *parent) record(res *opResult, input string) {
 	for _, k := range res.Counts {
 		c.Count(k)
 	}
-	if res.EmptyKey {
-		return // outside the property's hypothesis (KeyFunc never yields ""): correspondence only
-	}
 	for _, note := range res.Notes {
 		obs := note + " | " + Trunc(res.Req, 1500)
 		if strings.HasPrefix(res.Req, "regseq") {
@@ -1212,6 +1262,8 @@ func c11(c *Ctx) {
 		"w:9 c f:0:9 w:9 m:0 f:0:4 w:4 w:9 s:0 w:9",       // message with another phone on a joined connection
 		"c c f:0:3 f:1:3 s:1 sc:0 c f:2:3 w:3 sr:2 w:3",   // close and reset endings
 		"c c c f:0:1 f:1:2 f:2:1 s:2 w:1 w:2 s:1 w:1 w:2", // refusal between two owners
+		"c c ff:0:6 w:6 ff:1:6 s:1 ff:0:6 w:6 s:0 w:6",    // the first handled message is a sub-package fragment: joins, is announced, refuses the duplicate
+		"c c f:0:0 s:1 w:0 m:0 c ff:2:0 s:2 s:0 w:0",      // the empty key is a key like any other (fix 8f7d690)
 	}
 	for _, line := range corpus {
 		req := "xseq " + line
